@@ -57,6 +57,28 @@ class Result:
     def check(self, cond: bool, rule, func, stmt, detail="", reason="", where="", **extra):
         return self.add(rule, func, stmt, detail, "ok" if cond else "violation", "" if cond else reason, where, **extra)
 
+    def guard(self, label: str, func: str = ""):
+        """Context manager around one rule block: an idiom the rule does not recognise (AnalysisError) or an internal
+        error of the rule becomes an `unknown` obligation of that block - the other blocks still run and no alarm is
+        raised.  (Missing instance floors and a positive control that does not fire remain analysis errors.)"""
+        res = self
+
+        class _G:
+            def __enter__(self_inner):
+                return self_inner
+
+            def __exit__(self_inner, et, ev, tb):
+                if et is None:
+                    return False
+                if issubclass(et, (KeyboardInterrupt, SystemExit)):
+                    return False
+                kind = "unrecognised idiom" if et.__name__ == "AnalysisError" else f"internal {et.__name__}"
+                res.unknown("UNRECOGNISED", func or res.prop, label, kind, f"{kind}: {ev}")
+                res.notes.append(f"rule block `{label}` not applied ({kind}: {ev})")
+                return True
+
+        return _G()
+
     def dedupe(self):
         seen = {}
         rank = {"violation": 2, "ok": 1, "unknown": 0}
